@@ -22,6 +22,17 @@ import tempfile
 import time
 import traceback
 
+# Scratch files of the harness (mkdtemp per compilation, the rebuilt C extension) go to a memory-backed directory when there
+# is one: on a loaded machine mkdtemp+rmtree on the disk-backed /tmp costs more than a compilation (measured: 3943
+# compilations 238 s -> 23 s). TMPDIR, when set by the caller, is respected.
+if "TMPDIR" not in os.environ and os.path.isdir("/dev/shm") and os.access("/dev/shm", os.W_OK | os.X_OK):
+    try:
+        _st = os.statvfs("/dev/shm")
+        if _st.f_bavail * _st.f_frsize > (2 << 30):
+            tempfile.tempdir = "/dev/shm"
+    except OSError:
+        pass
+
 HERE = os.path.dirname(os.path.abspath(__file__))
 VERIF = os.path.dirname(HERE)
 LEAN_DIR = os.path.join(VERIF, "lean")
